@@ -6,6 +6,7 @@
 -/
 import NPModel.State.Kinds
 import NPModel.Refine.SoundFrames
+import NPModel.Refine.CleanFilter
 import NPModel.Refine.SamplesFrame
 namespace NP.C18
 open NP.State
@@ -144,6 +145,22 @@ open NP in
 theorem mixed_chains_stay_sound (ops : List FrameOp) (F : NFrame Cell) (h : F.Sound) (F' : NFrame Cell)
     (hok : runFrameChain F ops = .ok F') : F'.Sound :=
   runFrameChain_sound ops F h F' hok
+
+open NP in
+/-- **Selecting rows with a boolean mask keeps storage clean** (`__getitem__` with a mask — what a
+    base-layer query, a boolean filter or `dropna` on the base layer apply to every nested column):
+    chunk by chunk, any chunking; the rows are the rows the mask keeps. -/
+theorem mask_selection_keeps_storage_clean {α : Type} (c : PCol α) (hc : c.Clean) (hch : c.chunks ≠ []) (m : List Bool)
+    (c' : PCol α) (h : NArr.getItem c (.mask m) = .ok (.col c')) :
+    c'.Clean ∧ c'.chunks ≠ [] ∧ c'.rows = filterBy m c.rows :=
+  getItem_mask_clean c hc hch m c' h
+
+open NP in
+/-- **Base-layer queries keep frames sound**, and so do **chains of ALL the operations modelled**
+    (nested queries, dropnas, sorts, joins of every kind, base-layer queries), of any length. -/
+theorem all_chains_stay_sound (ops : List AnyOp) (F : NFrame Cell) (h : F.Sound) (F' : NFrame Cell)
+    (hok : runAnyChain F ops = .ok F') : F'.Sound :=
+  runAnyChain_sound ops F h F' hok
 
 open NP in
 /-- non-vacuity: the sample frame (a nested column in two chunks, the first a slice into a larger
